@@ -144,6 +144,15 @@ def getArgNames (c : Content) (cache : Cache) (f : ArgFlags) : List Name :=
   (if f.surrogateFluxes then surrogateReactionNames c else []) ++
   (if f.readouts then omKeys c.readouts else [])
 
+/-- `get_arg_names(**flags)` as a public entry point: the cache is built (and a bad graph rejected) only
+    when one of the two derived groups is requested — `get_derived_*_names` are the only callees that
+    need it -/
+def getArgNamesQ (c : Content) (f : ArgFlags) : Except Err (List Name) :=
+  if f.derivedVariables || f.derivedParameters then do
+    let cache ← createCache c
+    pure (getArgNames c cache f)
+  else pure (getArgNames c default f)
+
 /-- `scope = self._data | raw; for name, ro in self._readouts.items(): ro.calculate_inpl(name, scope);
     raw[name] = scope[name]` — in declaration order, in place; the readouts see the data sets again
     (after the repair of F-C01-4), the returned dict does not hold them.  Returns `raw`. -/
